@@ -113,6 +113,12 @@ func (e *Env) eval(ex Expr) Val {
 			return Val{T: tBool, Term: not(v.Term)}
 		case "-":
 			return Val{T: v.T, GS: v.GS, Term: "(- " + v.Term + ")"}
+		case "*":
+			pt, ok := v.T.Underlying().(*types.Pointer)
+			if !ok {
+				e.fail("dereference of non-pointer %s", v.T)
+			}
+			return e.x.loadLoc(e.st, &Loc{Kind: locHeap, Ref: v.Term, Root: pt.Elem()})
 		}
 	case *EBin:
 		return e.evalBin(n)
@@ -169,7 +175,8 @@ func (e *Env) evalIter(n *EIter) Val {
 	}
 	v, ok := e.st.cells[cellKey{e.frame.id, li.riCell}]
 	if !ok {
-		e.fail("#i: range index not live")
+		// the loop has not been entered on this path
+		return Val{T: tInt, Term: "0"}
 	}
 	return Val{T: tInt, Term: fmt.Sprintf("(+ %s 1)", v.Term)}
 }
@@ -524,6 +531,29 @@ func (e *Env) evalCall(n *ECall) Val {
 	case "zeroTime":
 		t, _ := e.x.resolveType(e.pkg, "time.Time")
 		return Val{T: t, Term: "zeroTime"}
+	case "truncSec":
+		return iv(fmt.Sprintf("(* 1000000000 (div %s 1000000000))", arg(0).Term))
+	case "atoiOk":
+		e.x.declAtoi()
+		return b(fmt.Sprintf("(atoiOk %s)", arg(0).Term))
+	case "atoiVal":
+		e.x.declAtoi()
+		return iv(fmt.Sprintf("(atoiVal %s)", arg(0).Term))
+	case "unquoteOk":
+		e.x.declQuote()
+		return b(fmt.Sprintf("(unquoteOk %s)", arg(0).Term))
+	case "unquoteVal":
+		e.x.declQuote()
+		return sv(fmt.Sprintf("(unquoteVal %s)", arg(0).Term))
+	case "quote":
+		e.x.declQuote()
+		return sv(fmt.Sprintf("(quote %s)", arg(0).Term))
+	case "statusText":
+		e.x.C.decl("(declare-fun statusText (Int) String)")
+		return sv(fmt.Sprintf("(statusText %s)", arg(0).Term))
+	case "zoneOffset":
+		e.x.declTime()
+		return iv(fmt.Sprintf("(zoneOffset (t_loc %s) (t_ns %s))", arg(0).Term, arg(0).Term))
 	case "implies":
 		return b(implies(arg(0).Term, arg(1).Term))
 	case "smt":
@@ -609,7 +639,7 @@ func (e *Env) applySpec(sf *SpecFunc, args []Val) Val {
 		}
 		return Val{T: rt, GS: rgs, Term: term}
 	}
-	if !e.x.specRecursive(sf) {
+	if !e.x.specRecursive(sf) && !sf.Opaque {
 		c := e.child()
 		c.pkg = sf.Pkg
 		c.bound = map[string]Val{}
@@ -649,7 +679,7 @@ func (e *Env) applySpec(sf *SpecFunc, args []Val) Val {
 	name := "spec_" + sf.Name
 	e.x.C.decl(fmt.Sprintf("(declare-fun %s (%s) %s)", name, strings.Join(ps, " "), rs))
 	app := "(" + name + " " + strings.Join(ts, " ") + ")"
-	if e.noUnfold == 0 && e.unfold != nil {
+	if e.noUnfold == 0 && e.unfold != nil && (!sf.Opaque || e.x.reveal[sf.Name]) {
 		c := e.child()
 		c.pkg = sf.Pkg
 		c.bound = map[string]Val{}
@@ -661,13 +691,40 @@ func (e *Env) applySpec(sf *SpecFunc, args []Val) Val {
 		for i, p := range sf.Params {
 			c.bound[p.Name] = cargs[i]
 		}
-		c.noUnfold = 1
+		if e.x.specRecursive(sf) {
+			c.noUnfold = 1
+		}
 		body := c.eval(sf.Body)
 		eq := fmt.Sprintf("(= %s %s)", app, body.Term)
-		if len(e.qvars) > 0 {
-			eq = fmt.Sprintf("(forall (%s) (! %s :pattern (%s)))", strings.Join(e.qvars, " "), eq, app)
+		var used []string
+		for _, qv := range e.qvars {
+			name := qv[1:strings.IndexByte(qv, ' ')]
+			if containsSym(app, name) {
+				used = append(used, qv)
+			}
 		}
-		*e.unfold = append(*e.unfold, eq)
+		if len(used) > 0 && len(used) < len(e.qvars) {
+			eq = fmt.Sprintf("(forall (%s) (! %s :pattern (%s)))", strings.Join(used, " "), eq, app)
+			// remaining bound variables cannot occur free in a top-level assertion
+			for _, qv := range e.qvars {
+				name := qv[1:strings.IndexByte(qv, ' ')]
+				if !containsSym(app, name) && containsSym(eq, name) {
+					eq = ""
+				}
+			}
+			if eq != "" {
+				*e.unfold = append(*e.unfold, eq)
+			}
+		} else if len(used) == 0 && len(e.qvars) > 0 {
+			if !anySym(eq, e.qvars) {
+				*e.unfold = append(*e.unfold, eq)
+			}
+		} else if len(e.qvars) > 0 {
+			eq = fmt.Sprintf("(forall (%s) (! %s :pattern (%s)))", strings.Join(e.qvars, " "), eq, app)
+			*e.unfold = append(*e.unfold, eq)
+		} else {
+			*e.unfold = append(*e.unfold, eq)
+		}
 	}
 	return Val{T: rt, GS: rgs, Term: app}
 }
@@ -994,4 +1051,26 @@ func (x *Exec) evalGlobalVar(e *Env, expr string) (Val, bool) {
 	}
 	l := &Loc{Kind: locGlobal, Name: pkgPath + "." + name, Root: tv.Type}
 	return x.loadLoc(e.st, l), true
+}
+
+func containsSym(term, name string) bool {
+	for i := 0; i+len(name) <= len(term); i++ {
+		if term[i:i+len(name)] == name {
+			before := i == 0 || term[i-1] == ' ' || term[i-1] == '('
+			after := i+len(name) == len(term) || term[i+len(name)] == ' ' || term[i+len(name)] == ')'
+			if before && after {
+				return true
+			}
+		}
+	}
+	return false
+}
+
+func anySym(term string, qvars []string) bool {
+	for _, qv := range qvars {
+		if containsSym(term, qv[1:strings.IndexByte(qv, ' ')]) {
+			return true
+		}
+	}
+	return false
 }
